@@ -23,7 +23,8 @@ abbrev P : PF := Zeno.Gen.Pipeline.facts
 theorem facts_ok :
     (A.stopClients == "nilSafe" && A.stopCancelsThenWaits && A.stopClosesAfterWriters && S.preSeencheckGuard == "guarded" &&
      U.preprocessorAck == "cancellable" && U.archiverAck == "cancellable" && U.postprocessorAck == "cancellable" &&
-     U.finisherAck == "cancellable" && P.stopOrderFreezeStagesSourceReactor) = true := by decide
+     U.finisherAck == "cancellable" && P.stopOrderFreezeStagesSourceReactor && P.preSendsCancellable && P.archSendsCancellable &&
+     P.postSendsCancellable && P.archiveWaitsForItsCaptures) = true := by decide
 
 /-- **Every stop moment × every configuration**: the run reaches the stop and the stop returns — no crash, no hang. -/
 theorem c03_stop_returns (c : Cfg) (m : Moment) : runAndStop A S U P c m = .returned := by
@@ -36,22 +37,27 @@ theorem c03_stop_returns (c : Cfg) (m : Moment) : runAndStop A S U P c m = .retu
   have h7 : U.postprocessorAck = "cancellable" := by decide
   have h8 : U.finisherAck = "cancellable" := by decide
   have h9 : P.stopOrderFreezeStagesSourceReactor = true := by decide
+  have h10 : P.preSendsCancellable = true := by decide
+  have h11 : P.archSendsCancellable = true := by decide
+  have h12 : P.postSendsCancellable = true := by decide
+  have h13 : P.archiveWaitsForItsCaptures = true := by decide
   have hfs : firstSeed S c = .returned := by
     simp only [firstSeed, h4]
     cases c.seencheck <;> cases c.useHQ <;> simp
-  simp only [runAndStop, stopPipeline, archiverStop, workerStop, andThen, hfs, h1, h2, h3, h5, h6, h7, h8, h9]
+  simp only [runAndStop, stopPipeline, archiverStop, workerStop, andThen, hfs, h1, h2, h3, h5, h6, h7, h8, h9, h10, h11, h12, h13]
   cases m <;> simp
 
 /-- what the two shapes found in the pinned tree did: with `--proxy` only the proxied client exists and `Stop`
 dereferenced the direct one; with `--disable-seencheck` the store was consulted although never opened -/
 theorem c03_old_shapes_crash :
-    archiverStop { A with stopClients := "derefsDirectClient" } U { proxy := true } .drained =
+    archiverStop { A with stopClients := "derefsDirectClient" } U P { proxy := true } .drained =
       .crash "nil dereference of the direct client (only the proxied one exists)" ∧
     firstSeed { S with preSeencheckGuard := "always" } { seencheck := false } = .crash "nil seen-store in preprocess" := by
   have h2 : A.stopCancelsThenWaits = true := by decide
   have h6 : U.archiverAck = "cancellable" := by decide
+  have h11 : P.archSendsCancellable = true := by decide
   constructor
-  · simp [archiverStop, workerStop, h2, h6]
+  · simp [archiverStop, workerStop, h2, h6, h11]
   · simp [firstSeed]
 
 end Zeno.Props.C03
